@@ -9,7 +9,7 @@ from symfl import core, tokens
 from symfl.core import S, set_mode, SymBool, Unsupported
 from symfl.install import install, shadow
 from symfl.replay import replay_fn
-from symfl.tokens import Tok, Key, LinearDict, SymText, Vocab, resym, spell
+from symfl.tokens import Tok, PH, Key, LinearDict, SymText, Vocab, resym, spell, is_symbolic_text
 
 from .common import rvar
 
@@ -38,10 +38,16 @@ STUBS = ["symbolic tokens: str subclasses with solver-decided equality and forke
          "builtin float shadowed in fuzzylite.rule: number token -> 0.5, any other token -> ValueError (as float() does)"]
 OB_BUDGET_S = {"quick": 300, "thorough": 2400}
 TOTAL_BUDGET_S = {"quick": 420, "thorough": 3000}
-BOUNDS = {"quick": {"rule tokens": "every sequence of 1..7 tokens; `if` + every sequence of 1..7 tokens + `then oa is lo`; `if ia is lo then` + every "
-                                   "sequence of 1..6 tokens; a loaded rule re-parsed with every sequence of 1..5 tokens; blocks of a valid and a symbolic rule",
-                    "vocabulary": "if then with and or is ( ) ia ib oa lo hi big very any 0.5 + unknown word"},
-          "thorough": {"rule tokens": "as quick with 9 / 8 / 8 free tokens", "vocabulary": "quick + not , sin +"}}
+BOUNDS = {"quick": {"rule tokens": "every sequence of 1..7 tokens; `if` + every sequence of 1..6 tokens (7 without parentheses/keywords) + `then oa is lo`; "
+                                   "`if ia is lo then` + every sequence of 1..6 tokens; a loaded rule re-parsed with every sequence of 1..5 tokens; "
+                                   "rule blocks [valid, every sequence of 1..5 tokens, valid]",
+                    "vocabulary": "if then with and or is ( ) ia ib oa lo hi big very any 0.5 + unknown word",
+                    "FLL documents": "a valid 22-line document with one line replaced by / preceded by a symbolic line: symbolic key with 0..2 symbolic "
+                                     "value tokens, a word without colon, or the original key with 0..3 symbolic value tokens; vocabulary: every word "
+                                     "of the document + description none inf 0.5 2 Constant Discrete Linear Function WeightedAverage TakagiSugeno "
+                                     "First Highest x and or with very any ( ) + unknown word"},
+          "thorough": {"rule tokens": "as quick with 9 / 7 (9 without parentheses) / 8 / 6 / 7 free tokens", "vocabulary": "quick + not , sin +",
+                       "FLL documents": "as quick with up to 3 symbolic value tokens after a symbolic key and up to 6 after the original key, insertion of two-value lines"}}
 
 ALLOWED = (SyntaxError, ValueError, KeyError)
 KNOWN_MISPLACED = "Antecedent.load/misplaced-connectives-accepted"
@@ -200,13 +206,15 @@ class _TextProp:
 
 
 def _sym_float(x=0.0):
-    if isinstance(x, SymText) and len(x.toks) == 1:
-        x = x.toks[0]
-    if isinstance(x, Tok):
-        if bool(x.is_word(NUMBERS)):
-            return 0.5
-        raise ValueError(f"could not convert string to float: '{x}'")
+    if is_symbolic_text(x):
+        return tokens.to_float(x)
     return float(x)
+
+
+def _sym_int(x=0, *a):
+    if is_symbolic_text(x):
+        return tokens.to_int(x)
+    return int(x, *a)
 
 
 def make_factory_manager(fl):
@@ -228,30 +236,55 @@ def token_hooks(fl, fm=None):
     real_i2p = Function.__dict__["infix_to_postfix"]
 
     def format_infix(cls, formula):
-        if isinstance(formula, SymText):
-            return formula
-        r = resym(formula)
-        if isinstance(r, SymText):
-            return r
-        return real_format.__func__(cls, formula)
+        def real(text):
+            old = Rule.AND, Rule.OR
+            Rule.AND, Rule.OR = saved_kw["AND"], saved_kw["OR"]     # the real function removes them from a set of plain strings
+            try:
+                return real_format.__func__(cls, text)
+            finally:
+                Rule.AND, Rule.OR = old
+        if is_symbolic_text(resym(formula)):
+            return tokens.map_words(real, formula)
+        return real(formula)
 
     def infix_to_postfix(cls, formula):
         return resym(real_i2p.__func__(cls, formula))
+
+    import fuzzylite.activation as act_mod
+    import fuzzylite.defuzzifier as defz_mod
+    Op = fl.Op
+    real_strip = Op.__dict__["strip_comments"]
+    real_ident = Op.__dict__["as_identifier"]
+
+    def strip_comments(fll, /, delimiter="#"):
+        return resym(real_strip.__func__(fll, delimiter))
+
+    def as_identifier(name):
+        if is_symbolic_text(name) or (isinstance(name, str) and tokens.PHRE.search(name)):
+            return tokens.as_identifier(real_ident.__func__, name)
+        return real_ident.__func__(name)
 
     try:
         for k, v in saved_kw.items():
             setattr(Rule, k, Key(v))
         Function.format_infix = classmethod(format_infix)
         Function.infix_to_postfix = classmethod(infix_to_postfix)
+        Op.strip_comments = staticmethod(strip_comments)
+        Op.as_identifier = staticmethod(as_identifier)
         for cls in (fl.Antecedent, fl.Consequent):
             cls.text = _TextProp("text")
-        with fl.settings.context(factory_manager=fm), shadow(rule_mod, float=_sym_float):
+        S.symtext = True
+        with fl.settings.context(factory_manager=fm), shadow(rule_mod, float=_sym_float), shadow(act_mod, int=_sym_int), \
+                shadow(defz_mod, int=_sym_int):
             yield
     finally:
+        S.symtext = False
         for k, v in saved_kw.items():
             setattr(Rule, k, v)
         Function.format_infix = real_format
         Function.infix_to_postfix = real_i2p
+        Op.strip_comments = real_strip
+        Op.as_identifier = real_ident
         for cls in (fl.Antecedent, fl.Consequent):
             if "text" in cls.__dict__:
                 delattr(cls, "text")
@@ -314,7 +347,7 @@ build_c16_engine = _ns["build_c16_engine"]
 GARGS = (ENGINE["inputs"], ENGINE["outputs"], HEDGES, NUMBERS)
 
 
-def ob_rule(template, tier, preload, label, max_paths=None, cell=None):
+def ob_rule(template, tier, preload, label, max_paths=None, cell=None, only=None):
     """every rule text matching the template: a list whose items are words (fixed) or None (a symbolic token);
     `cell` = (index of a free position, vocabulary index) restricts that token (work splitting)"""
 
@@ -332,6 +365,9 @@ def ob_rule(template, tier, preload, label, max_paths=None, cell=None):
         pre = [vocab.domain(kinds[i]) for i in free]
         for pos, idxs in (cell or ()):
             pre.append(z3.Or(*[kinds[pos] == j for j in idxs]))
+        if only:      # free tokens restricted to a sub-vocabulary
+            for i in free:
+                pre.append(z3.Or(*[kinds[i] == vocab.idx(w) for w in only + [vocab.other]]))
         ins = {f"k{i}": core.SymInt(kinds[i]) for i in free}
         xs = {v: rvar(f"x_{v}") for v in ("ia", "ib")}
         G = z_grammatical(kinds, vocab)
@@ -508,6 +544,165 @@ def concrete_text(text, vocab, base):
     return SymText([Tok(base + i, z3.IntVal(vocab.idx(w)), vocab) for i, w in enumerate(text.split())])
 
 
+# ------------------------------------------------------------------------------------------------------------------
+# FLL documents: a valid document in which one line (key and value tokens) is symbolic
+# ------------------------------------------------------------------------------------------------------------------
+FLL_BASE = [("Engine", ["e"]),
+            ("InputVariable", ["ia"]), ("enabled", ["true"]), ("range", ["0.000", "1.000"]), ("lock-range", ["false"]),
+            ("term", ["lo", "Triangle", "0.000", "0.250", "1.000"]),
+            ("OutputVariable", ["oa"]), ("enabled", ["true"]), ("range", ["0.000", "1.000"]), ("lock-range", ["false"]),
+            ("aggregation", ["Maximum"]), ("defuzzifier", ["Centroid", "100"]), ("default", ["nan"]), ("lock-previous", ["false"]),
+            ("term", ["big", "Triangle", "0.000", "0.500", "1.000"]),
+            ("RuleBlock", ["rb"]), ("enabled", ["true"]), ("conjunction", ["Minimum"]), ("disjunction", ["Maximum"]),
+            ("implication", ["Minimum"]), ("activation", ["General"]), ("rule", ["if", "ia", "is", "lo", "then", "oa", "is", "big"])]
+FLL_EXTRA_WORDS = ["description", "none", "inf", "0.5", "2", "Constant", "Discrete", "Linear", "Function", "WeightedAverage", "TakagiSugeno",
+                   "First", "Highest", "x", "and", "or", "with", "very", "any", "(", ")"]
+
+
+def fll_vocab():
+    words = []
+    for k, vs in FLL_BASE:
+        for w in [k] + vs:
+            if w not in words:
+                words.append(w)
+    for w in FLL_EXTRA_WORDS:
+        if w not in words:
+            words.append(w)
+    return Vocab(words)
+
+
+PY_RUN_FLL = """
+def run_fll(fl, text):
+    # import one FLL document; returns (exception or None, export of the imported engine or None, exception of export/re-import or None)
+    exc = out = post = None
+    try:
+        eng = fl.FllImporter().from_string(text)
+    except Exception as ex:
+        if type(ex).__name__ in ("BudgetExceeded", "Unsupported"): raise
+        exc = ex
+    if exc is None:
+        try:
+            out = fl.FllExporter().to_string(eng)
+            out2 = fl.FllExporter().to_string(fl.FllImporter().from_string(REWRAP(out)))
+            if str(out2) != str(out):
+                post = AssertionError("the export does not re-import to itself: %r vs %r" % (str(out), str(out2)))
+        except Exception as ex:
+            if type(ex).__name__ in ("BudgetExceeded", "Unsupported"): raise
+            post = ex
+    return exc, out, post
+"""
+_ns["REWRAP"] = resym
+exec(PY_RUN_FLL, _ns)
+run_fll = _ns["run_fll"]
+
+
+def ob_fll(line, shape, mode, label):
+    """the base document with line `line` replaced by (mode 'replace') or preceded by (mode 'insert') a symbolic line of the
+    given shape: 'K:n' = symbolic key and n symbolic value tokens, 'K' = a symbolic word without colon, '=:n' = the original
+    key with n symbolic value tokens"""
+
+    def run(ob):
+        fl = install()
+        set_mode("R")
+        tokens.reset_registry()
+        ob.max_paths = 400000
+        vocab = fll_vocab()
+        counter = [0]
+
+        def const(w):
+            counter[0] += 1
+            return Tok(1000 + counter[0], z3.IntVal(vocab.idx(w)), vocab)
+
+        kinds, free = [], []
+
+        def sym():
+            k = z3.Int(f"k{len(kinds)}")
+            kinds.append(k)
+            t = Tok(len(kinds) - 1, k, vocab)
+            free.append(t)
+            return t
+
+        def line_text(key, vals, colon=True):
+            return (str.__str__(key) + (":" if colon else "")) + ((" " + " ".join(vals)) if vals else "")
+
+        lines = []
+        for i, (k, vs) in enumerate(FLL_BASE):
+            indent = "" if k in ("Engine", "InputVariable", "OutputVariable", "RuleBlock") else "  "
+            if i == line:
+                if shape == "K":
+                    lines.append(indent + line_text(sym(), [], colon=False))
+                elif shape.startswith("K:"):
+                    key = sym()
+                    lines.append(indent + line_text(key, [sym() for _ in range(int(shape[2:]))]))
+                elif shape.startswith("=:"):
+                    lines.append(indent + line_text(const(k), [sym() for _ in range(int(shape[2:]))]))
+                if mode == "replace":
+                    continue
+            lines.append(indent + line_text(const(k), [const(v) for v in vs]))
+        doc = "\n".join(lines)
+        pre = [vocab.domain(k) for k in kinds]
+        ins = {f"k{i}": core.SymInt(k) for i, k in enumerate(kinds)}
+
+        def rbody(v):
+            class M:
+                def eval(self, k, model_completion=True):
+                    return k if z3.is_int_value(k) else z3.IntVal(int(v[str(k)]))
+            text = spell(doc, M())
+            return "\n".join([
+                "globals()['EXPECT_NO_EXCEPTION'] = False", "REWRAP = lambda s: s", PY_RUN_FLL,
+                f"text = {text!r}",
+                "exc, out, post = run_fll(fl, text)",
+                "bad = []",
+                "if exc is not None and not isinstance(exc, (SyntaxError, ValueError, KeyError)): bad.append('internal error %s: %s' % (type(exc).__name__, exc))",
+                "if post is not None: bad.append('imported, but export / re-import failed: %s: %s' % (type(post).__name__, post))",
+                "verdict(bool(bad), '; '.join(bad) + ' for the document\\n' + text)"])
+
+        rp = replay_fn(PROPERTY, label, rbody, key=None)
+        fm = make_factory_manager(fl)
+        text = resym(doc)
+
+        def body():
+            return run_fll(fl, text)
+
+        n = 0
+        todo = []
+        ob.r.sample = {"label": f"{label}: every exception is a syntax/value/key error; an accepted document exports and re-imports to itself",
+                       "path_conditions": "one token-identity literal per comparison the importer made", "claim": "per path: concrete outcome class"}
+        with token_hooks(fl, fm):
+            for p in ob.paths(pre, body, incremental=True):
+                n += 1
+                if p.exc is not None:
+                    ob.error(f"{label}: harness raised {type(p.exc).__name__}: {p.exc}")
+                    continue
+                exc, out, post = p.result
+                m = ob.witness(p, label)
+                if m is None:
+                    continue
+                shown = " | ".join(spell(l.strip(), m) for l in lines if tokens.PHRE.search(l) and any(f"QTK{t.i}KTQ" in l for t in free))
+                todo.append((spell(doc, m), outcome_class(exc), spell(out, m) if out is not None else None, outcome_class(post), shown))
+                if exc is not None:
+                    ob.prove(pre, p, isinstance(exc, ALLOWED), f"{label}: internal error {type(exc).__name__}: {str(exc)[:80]} e.g. line {shown!r}", ins, rp)
+                else:
+                    ob.prove(pre, p, post is None, f"{label}: imported line {shown!r} but export/re-import failed: {type(post).__name__}: {str(post)[:100]}", ins, rp)
+        if n == 0:
+            ob.error("no path")
+        else:
+            ob.r.vacuity_ok += 1
+        _ns["REWRAP"] = lambda s_: s_
+        try:
+            for text_c, oc, out, pc, shown in todo:
+                cexc, cout, cpost = run_fll(fl, text_c)
+                if outcome_class(cexc) != oc or (out is not None and str(cout) != out) or outcome_class(cpost) != pc:
+                    ob.r.conform_fail.append(f"{label}: token model and plain run disagree on line {shown!r}: symbolic {oc}/{pc} vs plain "
+                                             f"{outcome_class(cexc)}/{outcome_class(cpost)}: {cexc!r}" + ("" if out is None or str(cout) == out else f" exports differ:\n{out}\n---\n{cout}"))
+                    break
+                ob.r.conform_ok += 1
+        finally:
+            _ns["REWRAP"] = resym
+
+    return run
+
+
 def _plain_eq(a, b):
     return str.__str__(a) == str.__str__(b)
 
@@ -522,22 +717,28 @@ def obligations(tier, seed):
     singles = [w for w in ("and", "or", "(", ")", "ia", "ib", "oa", "then", ",") if voc.idx(w) is not None]
     groups = [(w, [voc.idx(w)]) for w in singles] + [("other", [j for j in range(voc.n) if voc.spell(j) not in singles])]
 
-    def add(name, template, preload=None, split=0):
+    def add(name, template, preload=None, split=0, only=None):
         import itertools
         free = [i for i, w in enumerate(template) if w is None]
         if split and len(free) >= split:
             for combo in itertools.product(groups, repeat=split):
+                if only and any(g[0] != "other" and g[0] not in only for g in combo):
+                    continue
                 tag = ",".join(g[0] for g in combo)
                 cell = tuple((free[i], combo[i][1]) for i in range(split))
-                obs.append((f"{name}/starts={tag}", ob_rule(template, tier, preload, f"{name}/starts={tag}", 400000, cell)))
+                obs.append((f"{name}/starts={tag}", ob_rule(template, tier, preload, f"{name}/starts={tag}", 400000, cell, only)))
         else:
-            obs.append((name, ob_rule(template, tier, preload, name, 400000)))
+            obs.append((name, ob_rule(template, tier, preload, name, 400000, None, only)))
 
     for L in range(1, 8 if q else 10):
         add(f"rule/any{L}", [None] * L, split=0 if L < 7 else (1 if L < 9 else 2))
     TAIL = ["then", "oa", "is", "lo"]
-    for M in range(1, 8 if q else 10):
-        add(f"antecedent/any{M}", ["if"] + [None] * M + TAIL, split=0 if M < 6 else (1 if M < 7 else (2 if M < 9 else 3)))
+    for M in range(1, 7 if q else 8):
+        add(f"antecedent/any{M}", ["if"] + [None] * M + TAIL, split=0 if M < 6 else (1 if M < 7 else 2))
+    # longer antecedents over the words an antecedent is made of, without parentheses (far fewer parser behaviours)
+    CORE = ["and", "or", "is", "ia", "ib", "oa", "lo", "hi", "very", "any", "then"]
+    for M in (7,) if q else (7, 8, 9):
+        add(f"antecedent/core{M}", ["if"] + [None] * M + TAIL, split=1 if M < 9 else 2, only=CORE)
     HEAD = ["if", "ia", "is", "lo", "then"]
     for M in range(1, 7 if q else 9):
         add(f"consequent/any{M}", HEAD + [None] * M)
@@ -545,4 +746,10 @@ def obligations(tier, seed):
         add(f"reload/any{L}", [None] * L, preload="if ia is hi and ib is lo then oa is big with 0.5")
     for M in range(1, 6 if q else 8):
         obs.append((f"block/any{M}", ob_block(M, tier, f"block/any{M}")))
+    shapes = ["K", "K:0", "K:1", "K:2", "=:0", "=:1", "=:2", "=:3"] if q else ["K", "K:0", "K:1", "K:2", "K:3", "=:0", "=:1", "=:2", "=:3", "=:4", "=:5", "=:6"]
+    for i, (k, vs) in enumerate(FLL_BASE):
+        for sh in shapes:
+            obs.append((f"fll/line{i}-{k}/replace/{sh}", ob_fll(i, sh, "replace", f"fll/line{i}-{k}/replace/{sh}")))
+        for sh in (["K:1"] if q else ["K:1", "K:2"]):
+            obs.append((f"fll/line{i}-{k}/insert/{sh}", ob_fll(i, sh, "insert", f"fll/line{i}-{k}/insert/{sh}")))
     return obs
